@@ -101,6 +101,10 @@ func (g *rowGen) fill(v reflect.Value, tag, path string, row, depth int, top boo
 	r := g.r
 	t := v.Type()
 	if t == timeType {
+		if hasOpt(tag, "optional") && !g.present(path, row, top) {
+			v.Set(reflect.Zero(t)) // the zero time is the null of an optional non-pointer time.Time
+			return
+		}
 		v.Set(reflect.ValueOf(g.genTime(tag, path, row)))
 		return
 	}
